@@ -109,6 +109,7 @@ type ChildOutput struct {
 	RaceBuild    bool          `json:"raceBuild"`
 	ForcedRuns   int           `json:"forcedRuns"`
 	ForcedInSync int           `json:"forcedInSync"`
+	ForcedSteps  int64         `json:"forcedSteps"` // node announcements granted by the gate
 	RandomRuns   int           `json:"randomRuns"`
 	Renders      int64         `json:"renders"`
 	JSWrites     int64         `json:"jsWrites"`
@@ -321,6 +322,7 @@ func (c *child) forced() {
 				continue
 			}
 			c.out.ForcedRuns++
+			c.out.ForcedSteps += int64(len(run.Actual))
 			c.out.Renders += int64(len(cases))
 			if run.InSync {
 				c.out.ForcedInSync++
@@ -401,6 +403,7 @@ func (c *child) randomForced() {
 				continue
 			}
 			c.out.RandomRuns++
+			c.out.ForcedSteps += int64(len(run.Actual))
 			c.out.Renders += int64(n)
 			if switches(run.Actual) >= 2 {
 				c.out.Distinct = append(c.out.Distinct, schedKey(cfg.Name+"/"+in.Files[0].Text, nil, run.Actual)+fmt.Sprint(cases))
@@ -768,6 +771,7 @@ func (c *child) replay(m *Mismatch) {
 		}
 		c.attribute(m, inst)
 		c.out.ForcedRuns++
+		c.out.ForcedSteps += int64(len(run.Actual))
 		if run.InSync {
 			c.out.ForcedInSync++
 		}
